@@ -85,6 +85,8 @@ struct Desc {
     kind: String,
     tokens: Vec<String>,
     shape: Vec<u16>,
+    /// the node's own text, trivia included ("same text")
+    text: String,
 }
 
 fn describe(n: &SyntaxNode) -> Desc {
@@ -101,7 +103,7 @@ fn describe(n: &SyntaxNode) -> Desc {
             NodeOrToken::Node(n) => shape.push(n.kind().into()),
         }
     }
-    Desc { kind: format!("{:?}", n.kind()), tokens, shape }
+    Desc { kind: format!("{:?}", n.kind()), tokens, shape, text: n.text().to_string() }
 }
 
 /// Statements of the innermost target block of the context (or of the file).
@@ -131,6 +133,8 @@ pub struct Seqs {
     pub singles: Vec<Vec<Desc>>,
     pub ctx: usize,
     pub n: usize,
+    /// what is written between two statements (a blank; comments in the joiner spaces)
+    pub joiner: &'static str,
 }
 
 impl Seqs {
@@ -149,7 +153,13 @@ impl Seqs {
                 }
             }
         }
-        Seqs { pool, clean, singles, ctx, n }
+        Seqs { pool, clean, singles, ctx, n, joiner: " " }
+    }
+
+    pub fn joined(ctx: usize, n: usize, joiner: &'static str) -> Seqs {
+        let mut s = Seqs::new(ctx, n);
+        s.joiner = joiner;
+        s
     }
 
     fn check(&self, idx: &[usize], ctx: &mut Ctx) {
@@ -162,8 +172,17 @@ impl Seqs {
         let mut body = String::new();
         let mut starts = Vec::new();
         for (k, i) in idx.iter().enumerate() {
-            if k > 0 && !body.ends_with('\n') {
-                body.push(' ');
+            if k > 0 {
+                if self.joiner == " " {
+                    if !body.ends_with('\n') {
+                        body.push(' ');
+                    }
+                } else {
+                    if !body.ends_with('\n') {
+                        body.push(' ');
+                    }
+                    body.push_str(self.joiner);
+                }
             }
             starts.push(pre.len() + body.len());
             body.push_str(&self.pool[self.clean[*i]].1);
@@ -244,7 +263,11 @@ impl Seqs {
 
 impl Space for Seqs {
     fn name(&self) -> String {
-        format!("STMT-SEQ/{}/len={}", BLOCK_CONTEXTS[self.ctx].0, self.n)
+        if self.joiner == " " {
+            format!("STMT-SEQ/{}/len={}", BLOCK_CONTEXTS[self.ctx].0, self.n)
+        } else {
+            format!("STMT-SEQ/{}/len={}/joiner={:?}", BLOCK_CONTEXTS[self.ctx].0, self.n, self.joiner)
+        }
     }
     fn describe(&self) -> Value {
         json!({"space": "STMT-SEQ", "context": BLOCK_CONTEXTS[self.ctx].0, "pool": self.pool.len(), "clean": self.clean.len(),
@@ -361,6 +384,12 @@ pub fn spaces(tier: Tier, _seed: u64) -> Vec<Box<dyn Space>> {
     v.push(Box::new(Repeats { seqs: Seqs::new(0, 1), counts: counts.clone() }));
     v.push(Box::new(Repeats { seqs: Seqs::new(7, 1), counts: counts.clone() }));
     v.push(Box::new(Repeats { seqs: Seqs::new(1, 1), counts }));
+    // comments between the statements: a trailing line comment, a comment line, a block comment
+    for j in ["// c\n", "\n// c\n", "/* c */ ", "\n\n// c\n\n"] {
+        for c in [0usize, 1, 7, 8] {
+            v.push(Box::new(Seqs::joined(c, 2, j)));
+        }
+    }
     for c in 0..BLOCK_CONTEXTS.len() {
         v.push(Box::new(Seqs::new(c, 1)));
         v.push(Box::new(Seqs::new(c, 2)));
